@@ -109,6 +109,9 @@ def e_bkg_estimators(inp):
         est = getattr(B, cls)()
         out.append(est(inp['data']))
         out.append(est(inp['data'], axis=1))
+        raw = getattr(B, cls)(sigma_clip=None)          # without clipping the statistic runs on the caller's array itself
+        out.append(raw(inp['data']))
+        out.append(raw(inp['data'], axis=0))
     return out
 
 
